@@ -1087,7 +1087,14 @@ func (ex *Exec) allocLen(fr *frame, in ssa.Instruction, n *sym.Term, what string
 	}
 	if ex.branch(c.Cmp(sym.OUlt, sym.Const(64, uint64(ex.allocLimit)), n), in, fr) {
 		if ex.allocLimitSet {
-			ex.runtimePanic(fr, in, fmt.Sprintf("makeslice: allocation out of proportion (symbolic length can exceed the stated limit of %d elements)", ex.allocLimit))
+			// prefer a grossly large witness so that the native replay can observe it
+			big := c.Cmp(sym.OUle, sym.Const(64, 1<<27), n)
+			if r, _ := ex.solver.Check(big, nil); r == sym.Sat {
+				ex.assertPC(big)
+				ex.runtimePanic(fr, in, fmt.Sprintf("makeslice: allocation out of proportion (a length taken from the input can exceed 2^27 elements; stated limit %d)", ex.allocLimit))
+			}
+			ex.modelOnly = true
+			ex.runtimePanic(fr, in, fmt.Sprintf("makeslice: allocation out of proportion (model-only witness: a length taken from the input can exceed the stated limit of %d elements)", ex.allocLimit))
 		}
 		ex.inconclusive("symbolic allocation length exceeds engine limit")
 	}
